@@ -36,6 +36,7 @@ def cases(tier, seed):
         yield f"C19|shape|{a}", {"kind": "shape", "arch": a, "tier": tier}
     for a in ("bourtsoulatze", "tung-q", "tung-q2", "kurka"):
         yield f"C19|pipeline|{a}", {"kind": "pipeline", "arch": a, "tier": tier}
+    yield "C19|pipeline|kurka-feedback-model", {"kind": "feedback-model", "tier": tier}
     yield "C19|filters-factor", {"kind": "factor", "tier": tier}
 
 
@@ -44,7 +45,7 @@ def component_of(p):
 
 
 def execute(p, res):
-    {"grad-stage": grad_stage, "grad-constraint": grad_constraint, "shape": shape_case, "pipeline": pipeline_case, "factor": factor_case}[p["kind"]](p, res)
+    {"grad-stage": grad_stage, "grad-constraint": grad_constraint, "shape": shape_case, "pipeline": pipeline_case, "factor": factor_case, "feedback-model": feedback_model_case}[p["kind"]](p, res)
 
 
 # ----------------------------------------------------------------------------- gradient machinery
@@ -343,14 +344,15 @@ def pipeline_case(p, res):
             x = image(2, in_ch, H, H)
             holder["x"] = x[:, :3]
             try:
-                with torch.enable_grad(), Seam(Frozen(5)):
-                    y = model(x)
-                    loss = ((y - x[:, :out_ch] if out_ch <= in_ch else y[:, :3] - x[:, :3]) ** 2).mean()
-                    for prm_ in emod.parameters():
-                        prm_.grad = None
-                    loss.backward()
+                for step in range(2):          # two training steps on the SAME pipeline instance (state kept between calls must not break autograd)
+                    with torch.enable_grad(), Seam(Frozen(5 + step)):
+                        y = model(x)
+                        loss = ((y - x[:, :out_ch] if out_ch <= in_ch else y[:, :3] - x[:, :3]) ** 2).mean()
+                        for prm_ in emod.parameters():
+                            prm_.grad = None
+                        loss.backward()
             except Exception as e:  # noqa: BLE001
-                res.viol(a, cfg, "raises", f"{type(e).__name__}: {str(e)[:200]}")
+                res.viol(a, cfg, "raises", f"training step {step}: {type(e).__name__}: {str(e)[:200]}")
                 continue
             res.ev(1, nontrivial=1, transitions=2)
             bad = []
@@ -363,6 +365,38 @@ def pipeline_case(p, res):
             if tuple(y.shape) != (2, out_ch, H, H):
                 res.viol(a, cfg, "output-shape", f"pipeline output {tuple(y.shape)}")
     res.sample({"arch": a, "constraints": list(cons), "channels": list(chans)})
+
+
+def feedback_model_case(p, res):
+    """the bundled feedback architecture as a whole model: repeated forward/backward on one instance, gradients reach every encoder parameter"""
+    import torch
+    from kaira.models.image.kurka2020_deepjscc_feedback import DeepJSCCFeedbackModel
+    from kmc.rngseam import Frozen, Seam
+    for fb_snr in (None, 20.0):
+        for Bn, H in ((2, 16), (1, 32)):
+            cfg = f"feedback_snr={fb_snr},B={Bn},H={H}"
+            torch.manual_seed(1)
+            try:
+                model = DeepJSCCFeedbackModel(channel_snr=10.0, conv_depth=16, channel_type="awgn", feedback_snr=fb_snr, refinement_layer=False, layer_id=0)
+                x = image(Bn, 3, H, H)
+                for step in range(3):
+                    with torch.enable_grad(), Seam(Frozen(11 + step)):
+                        out = model(x)
+                        y = out["decoded_img"]
+                        loss = ((y - x) ** 2).mean() + ((out["decoded_img_fb"] - x) ** 2).mean()
+                        model.zero_grad(set_to_none=True)
+                        loss.backward()
+                    res.ev(1, nontrivial=1, transitions=2)
+                    bad = [nm for nm, pr in model.encoder.named_parameters() if pr.grad is None or not bool(torch.isfinite(pr.grad).all()) or float(pr.grad.abs().sum()) == 0.0]
+                    if bad:
+                        res.viol("kurka-feedback-model", cfg, "grad-reaches-encoder", f"training step {step}: {len(bad)} encoder parameters without a finite non-zero gradient, e.g. {bad[:3]}")
+                        break
+                    if tuple(y.shape) != tuple(x.shape) or float(y.min()) < 0 or float(y.max()) > 1:
+                        res.viol("kurka-feedback-model", cfg, "output-shape", f"decoded_img shape {tuple(y.shape)} range [{float(y.min())}, {float(y.max())}]")
+                        break
+            except Exception as e:  # noqa: BLE001
+                res.viol("kurka-feedback-model", cfg, "raises", f"training step: {type(e).__name__}: {str(e)[:200]}")
+    res.sample({"arch": "DeepJSCCFeedbackModel", "steps": 3})
 
 
 def factor_case(p, res):
